@@ -1,12 +1,13 @@
 import Blue.Proofs.TupleKey1Parse
 import Blue.Proofs.TupleKey1Scan
 import Blue.Proofs.TupleKey2T
+import Blue.Proofs.TupleKey2Scan
 import Blue.Proofs.TupleEmbed1
 import Blue.Proofs.ConstsTieC16
 /-! # Property C16 — tuple-key encodings sort byte-wise exactly as their tuples, and decode back
 
 Property theorems only (helper lemmas live in `Blue/Proofs/{TupleKey1,TupleKey2,Digits,TupleString,
-TupleDecode,TupleStringDecode,TupleKey1T,TupleKey1Parse,TupleKey1Scan,TupleKey2T,TupleEmbed,TupleEmbed1}.lean`).
+TupleDecode,TupleStringDecode,TupleKey1T,TupleKey1Parse,TupleKey1Scan,TupleKey2T,TupleKey2Scan,TupleEmbed,TupleEmbed1}.lean`).
 
 Two models, both tied to the crates byte for byte by the correspondence check:
 * `Blue.TupleKey1` — the field-numbered format (`tuple_key`): tag = rotated varint of
@@ -57,8 +58,28 @@ byte, low bits of the last byte of the integers, pad bits of the last string chu
 field-numbered format: `typed_total_no_overrun`, `typed_values_ok` (`parseRow` with ANY expected
 element sequence on ANY bytes reads a prefix only, ends `ok` only behind the last expected element,
 and an error is the error of `parse_next_with_key` for the first expected element that does not
-parse).  The same statement for the compact format's parsers is not a theorem here (see `partial`
-in bin/props.py). -/
+parse).
+
+The compact format's typed parser on ARBITRARY bytes (block `TupleKey2Scan` at the end of this file,
+proofs in `Blue/Proofs/TupleKey2Scan.lean`; hypothesis `IsBytes buf` = the entries are bytes, which
+is all a `&[u8]` can hold): `compact_parse_total_no_overrun` / `compact_calls_total_no_overrun`
+(`parseRow` = the typed calls + `finish`, `compact_parse_is_calls_then_finish`: it consumes exactly
+`encVals vals`, the concatenation of the canonical encodings of the values it returns, which fit the
+expected types; success only behind the last expected element with NO byte left — `finish` rejects
+trailing bytes as `TrailingBytes`, the calls alone hand them over as `remaining()` —; any other error is
+the error of the first expected element that does not parse), `compact_parse_append` /
+`compact_parse_append_rest` (a key followed by ANY bytes parses to the tuple followed by the parse of
+those bytes), `compact_element_canonical` / `compact_parse_canonical` / `compact_reencode_iff` /
+`compact_reencode` (unlike the field-numbered format there is NO accepted non-canonical input: what is
+accepted is exactly what the builder writes; the near-canonical inputs are rejected,
+`compact_noncanonical_rejected`; `compact_isBytes_needed` shows the hypothesis cannot be dropped in the
+model), and truncation: `compact_truncation_element` (for EVERY element type every proper prefix of
+an element's encoding is rejected by its typed call, `UnexpectedEnd` for unit and integers,
+`UnterminatedBytes` for bytes and strings — no proper prefix parses as a shorter value),
+`compact_truncation_key` (a proper prefix of a key returns the elements before the cut, then that
+error), `compact_truncation_accepted_prefix_free` (the accepted inputs of a type sequence are
+prefix-free), `compact_truncation_witnesses`.  This is the content "returns an error" has for the
+compact format; "rather than panicking" stays an observation on the implementation. -/
 namespace Blue.Props.C16
 open Blue.TupleKey2 (blt Strong slt)
 
@@ -640,6 +661,207 @@ example : ∀ s ∈ [((1 : Nat), Ty.u32, Dir.fwd), (1, .str, .fwd)], validField 
 
 end NonVacuity
 
+-- BEGIN TupleKey2Scan
+/-! ## compact format: the typed parser on ARBITRARY bytes
+
+`parseRow tys buf` is the function the driver runs: one typed `TupleKeyParser` call per expected
+type, then `finish`.  The compact format has no `Reverse` wrapper / per-element direction (there is
+none in tuple_key2/src/lib.rs), so "both directions" has no content here: the element types are
+unit, u8..u64, i8..i64, bytes, string.  `IsBytes buf` (every entry below 256) is the only
+hypothesis on the input: the model's lists of `Nat` are wider than `&[u8]`, and outside it the
+integer payloads are not canonical in the MODEL (`compact_isBytes_needed`). -/
+section TupleKey2Scan
+open Blue.TupleKey2
+
+/-- `parseRow` is the typed calls (`parseElems`, which hands over `remaining()`) followed by `finish` -/
+theorem compact_parse_is_calls_then_finish (tys : List Ty) (buf : List Nat) :
+    parseRow tys buf = ((parseElems tys buf).1, finish (parseElems tys buf).2) := parseRow_eq_finish tys buf
+
+/-- **arbitrary bytes, no overrun** (compact format; same shape as `typed_total_no_overrun`): with
+    ANY expected type sequence on ANY bytes the parser reads a prefix of the input only, and that
+    prefix is `encVals vals`: the concatenation, element by element, of the slices it recognised, each
+    of which is the canonical encoding of the value returned for it; the values fit the expected types
+    (`TyOk`: integer widths, UTF-8 for `string`); it reports success only if every expected element was
+    parsed AND no byte remains — TRAILING bytes are REJECTED by `finish` (`TrailingBytes { remaining }`),
+    not handed over —; any other error is exactly the error of the typed call for the first expected
+    element that does not parse, at what remains -/
+theorem compact_parse_total_no_overrun (tys : List Ty) (buf : List Nat) (hb : IsBytes buf) :
+    ∃ rest, buf = encVals (parseRow tys buf).1 ++ rest
+      ∧ (parseRow tys buf).1.length ≤ tys.length
+      ∧ (∀ e ∈ tys.zip (parseRow tys buf).1, TyOk e.1 e.2)
+      ∧ ((parseRow tys buf).2 = none → rest = [] ∧ (parseRow tys buf).1.length = tys.length)
+      ∧ (∀ e, (parseRow tys buf).2 = some e →
+          ((parseRow tys buf).1.length = tys.length ∧ rest ≠ [] ∧ e = .trailing rest.length)
+          ∨ (∃ t, tys[(parseRow tys buf).1.length]? = some t ∧ parseVal t rest = .error e)) :=
+  parseRow_total_no_overrun tys buf hb
+
+/-- the same for the calls without `finish` (a caller that reads `remaining()` instead): all calls
+    return only behind the last expected element, and `remaining()` is exactly the unconsumed suffix -/
+theorem compact_calls_total_no_overrun (tys : List Ty) (buf : List Nat) (hb : IsBytes buf) :
+    ∃ rest, buf = encVals (parseElems tys buf).1 ++ rest
+      ∧ (parseElems tys buf).1.length ≤ tys.length
+      ∧ (∀ e ∈ tys.zip (parseElems tys buf).1, TyOk e.1 e.2)
+      ∧ (∀ rem, (parseElems tys buf).2 = .ok rem → rem = rest ∧ (parseElems tys buf).1.length = tys.length)
+      ∧ (∀ e, (parseElems tys buf).2 = .error e →
+          ∃ t, tys[(parseElems tys buf).1.length]? = some t ∧ parseVal t rest = .error e) :=
+  parseElems_total tys buf hb
+
+/-- one typed call on any bytes: a value comes back only from an input that begins with the
+    canonical encoding of that value; the remainder handed over is what follows it -/
+theorem compact_element_canonical {t : Ty} {buf : List Nat} {v : Val} {rest : List Nat}
+    (h : parseVal t buf = .ok (v, rest)) (hb : IsBytes buf) : TyOk t v ∧ buf = encVal' v ++ rest :=
+  parseVal_canonical h hb
+
+/-- **self-delimitation on arbitrary suffixes**: a key followed by ANY bytes `rest`, parsed with the
+    writer's types followed by ANY further expected types, is the tuple followed by the parse of
+    `rest` (every element type; nothing behind an element influences how it is read) -/
+theorem compact_parse_append (r : List (Ty × Val)) (h : ∀ e ∈ r, TyOk e.1 e.2) (tys' : List Ty) (rest : List Nat) :
+    parseRow (r.map (·.1) ++ tys') (encVals (r.map (·.2)) ++ rest)
+      = (r.map (·.2) ++ (parseRow tys' rest).1, (parseRow tys' rest).2) := parseRow_encode_append r h tys' rest
+
+/-- with exactly the writer's types: the calls yield the tuple and `remaining() = rest`; `finish`
+    accepts iff `rest` is empty and otherwise says `TrailingBytes { remaining: rest.len() }` -/
+theorem compact_parse_append_rest (r : List (Ty × Val)) (h : ∀ e ∈ r, TyOk e.1 e.2) (rest : List Nat) :
+    parseElems (r.map (·.1)) (encVals (r.map (·.2)) ++ rest) = (r.map (·.2), .ok rest)
+    ∧ parseRow (r.map (·.1)) (encVals (r.map (·.2)) ++ rest)
+        = (r.map (·.2), if rest = [] then none else some (.trailing rest.length)) := parse_encode_rest r h rest
+
+/-- **every accepted input is canonical**: there are no padding bits, over-long integers,
+    alternative escapes or alternative terminators the parser lets through — what it accepts is the
+    key the builder writes for the values returned -/
+theorem compact_parse_canonical {tys : List Ty} {buf : List Nat} {vs : List Val}
+    (h : parseRow tys buf = (vs, none)) (hb : IsBytes buf) :
+    vs.length = tys.length ∧ (∀ e ∈ tys.zip vs, TyOk e.1 e.2) ∧ encRow (tys.zip vs) = some buf :=
+  parseRow_canonical h hb
+
+/-- **the accepted byte strings, exactly** (parse and re-encode to themselves = parse): `parseRow tys`
+    accepts `buf` with values `vs` iff `buf` is what the builder writes for a well-typed row of those
+    types and values -/
+theorem compact_reencode_iff (tys : List Ty) (buf : List Nat) (vs : List Val) (hb : IsBytes buf) :
+    parseRow tys buf = (vs, none)
+      ↔ ∃ r, r.map (·.1) = tys ∧ r.map (·.2) = vs ∧ (∀ e ∈ r, TyOk e.1 e.2) ∧ encRow r = some buf :=
+  parseRow_accepts_iff tys buf vs hb
+
+/-- whatever the outcome, re-encoding the values returned gives back the consumed prefix: the whole
+    input iff nothing was left unparsed, in particular whenever the parse is accepted -/
+theorem compact_reencode (tys : List Ty) (buf : List Nat) (hb : IsBytes buf) :
+    ∃ rest, buf = encVals (parseRow tys buf).1 ++ rest
+      ∧ (encVals (parseRow tys buf).1 = buf ↔ rest = [])
+      ∧ ((parseRow tys buf).2 = none → rest = []) := parseRow_reencode tys buf hb
+
+/-- the near-canonical inputs, per element type, are REJECTED (`decide`): a zero-padded unsigned
+    and signed integer, `-1` with a payload byte, a negative and a non-negative payload outside `i64`,
+    an escape other than `00 ff`, a neighbouring unit tag, a value too wide for the method, invalid
+    UTF-8; a third terminator byte is a trailing byte -/
+theorem compact_noncanonical_rejected :
+    parseRow [.u64] [0x23, 0x00] = ([], some .nonCanonical)
+    ∧ parseRow [.i64] [0x1a, 0x00] = ([], some .nonCanonical)
+    ∧ parseRow [.i64] [0x17, 0xff] = ([], some .nonCanonical)
+    ∧ parseRow [.i64] [0x10, 0x7f, 0xff, 0xff, 0xff, 0xff, 0xff, 0xff, 0xff] = ([], some (.outOfRange .i64))
+    ∧ parseRow [.i64] [0x21, 0x80, 0, 0, 0, 0, 0, 0, 0] = ([], some (.outOfRange .i64))
+    ∧ parseRow [.bytes] [0x61, 0, 1] = ([], some (.invalidEscape 1))
+    ∧ parseRow [.unit] [0x2a] = ([], some (.invalidUnitTag 0x2a))
+    ∧ parseRow [.u8] [0x24, 0x01, 0x00] = ([], some (.outOfRange .u8))
+    ∧ parseRow [.str] [0xff, 0, 0] = ([], some .invalidUtf8)
+    ∧ parseRow [.bytes] [0x61, 0, 0, 0] = ([.bytes [0x61]], some (.trailing 1)) := by decide +kernel
+
+/-- `IsBytes` cannot be dropped in the MODEL (not an input the code can see: 256 is not a `u8`):
+    a two-entry payload `[0, 256]` passes the shortest-form check as 256, whose key is `24 01 00` -/
+theorem compact_isBytes_needed :
+    parseRow [.u64] [0x24, 0, 256] = ([.nat 256], none) ∧ encodeU64 256 = [0x24, 1, 0] := by decide +kernel
+
+/-- the truncation error of a typed call: `UnterminatedBytes` for `bytes`/`string`, `UnexpectedEnd`
+    for the integers and the unit -/
+theorem compact_truncation_error :
+    [Ty.unit, .u8, .u16, .u32, .u64, .i8, .i16, .i32, .i64, .bytes, .str].map truncErr
+      = [.unexpectedEnd, .unexpectedEnd, .unexpectedEnd, .unexpectedEnd, .unexpectedEnd, .unexpectedEnd,
+         .unexpectedEnd, .unexpectedEnd, .unexpectedEnd, .unterminated, .unterminated] := rfl
+
+/-- **one element, truncated**: for EVERY element type every proper prefix of an element's
+    encoding — the empty prefix, a tag without its whole payload, a string cut in its data, between
+    the `00` and `ff` of an escape, before the terminator or between its two bytes — is rejected by
+    that element's typed call with its truncation error.  No element type lets a proper prefix parse
+    as a shorter value. -/
+theorem compact_truncation_element {t : Ty} {v : Val} (h : TyOk t v) {p q : List Nat}
+    (hpq : p ++ q = encVal' v) (hq : q ≠ []) : parseVal t p = .error (truncErr t) := parseVal_truncated h hpq hq
+
+/-- **a truncated key**: every proper prefix of a key, parsed with the writer's types, returns the
+    elements lying wholly before the cut and fails with the truncation error of the element the cut
+    falls in or before; it is never accepted (this is the rule `C16-half-terminator-accepted` breaks) -/
+theorem compact_truncation_key (r : List (Ty × Val)) (h : ∀ e ∈ r, TyOk e.1 e.2) (p q : List Nat)
+    (hpq : p ++ q = encVals (r.map (·.2))) (hq : q ≠ []) :
+    ∃ k t, (r.map (·.1))[k]? = some t ∧ parseRow (r.map (·.1)) p = ((r.map (·.2)).take k, some (truncErr t)) :=
+  parseRow_truncated r h p q hpq hq
+
+/-- **the accepted inputs of a type sequence are prefix-free**: if `parseRow tys` accepts `buf` it
+    rejects every proper prefix of `buf`, with a truncation error, after a prefix of the same values -/
+theorem compact_truncation_accepted_prefix_free {tys : List Ty} {buf : List Nat} {vs : List Val}
+    (h : parseRow tys buf = (vs, none)) (hb : IsBytes buf) {p q : List Nat} (hpq : p ++ q = buf) (hq : q ≠ []) :
+    ∃ k t, tys[k]? = some t ∧ parseRow tys p = (vs.take k, some (truncErr t)) :=
+  parseRow_prefix_rejected h hb hpq hq
+
+/-- witnesses (`decide`): the string `[0x61, 0]` (key `61 00 ff 00 00`) cut after each byte — the half
+    terminator `61 00 ff 00` included — is `UnterminatedBytes`; a cut integer is `UnexpectedEnd`.
+    What IS accepted from a truncated key is only what the schema allows: with a SHORTER type
+    sequence a key cut at an element boundary is the key of the shorter tuple, and with a DIFFERENT
+    type a prefix may be another type's element (`22` is the u64 0 and the first byte of the string
+    `"\x22"`) — the statements above are for the writer's types. -/
+theorem compact_truncation_witnesses :
+    encodeBytes [0x61, 0] = [0x61, 0, 0xff, 0, 0]
+    ∧ parseRow [.bytes] [0x61, 0, 0xff, 0] = ([], some .unterminated)
+    ∧ parseRow [.bytes] [0x61, 0, 0xff] = ([], some .unterminated)
+    ∧ parseRow [.bytes] [0x61, 0] = ([], some .unterminated)
+    ∧ parseRow [.bytes] [0x61] = ([], some .unterminated)
+    ∧ parseRow [.bytes] [] = ([], some .unterminated)
+    ∧ parseRow [.u16] [0x24, 0x01] = ([], some .unexpectedEnd)
+    ∧ parseRow [.i64] [0x17] = ([], some .unexpectedEnd)
+    ∧ parseRow [.unit] [] = ([], some .unexpectedEnd)
+    ∧ parseRow [.u8, .bytes] [0x23, 0x07, 0x61, 0] = ([.nat 7], some .unterminated)
+    ∧ parseRow [.u8] [0x23, 0x07] = ([.nat 7], none)
+    ∧ encodeBytes [0x22] = [0x22, 0, 0] ∧ parseVal .u64 [0x22] = .ok (.nat 0, []) := by decide +kernel
+
+/-! non-vacuity: a row with every element type (extreme values, an escaped zero and an `ff` inside the
+    byte string, a two-byte UTF-8 string), its key, and hostile buffers -/
+
+example : ∀ e ∈ mixedRow, TyOk e.1 e.2 := by decide +kernel
+example : encRow mixedRow = some mixedKey := by decide +kernel
+example : encVals (mixedRow.map (·.2)) = mixedKey := by decide +kernel
+example : IsBytes mixedKey := by decide
+-- `compact_reencode_iff`, both sides, on the mixed key
+example : parseRow (mixedRow.map (·.1)) mixedKey = (mixedRow.map (·.2), none) := by decide +kernel
+-- `compact_parse_append`: hostile bytes behind the key, no further expected type / one more
+example : parseRow (mixedRow.map (·.1)) (mixedKey ++ [0xff, 0x00])
+    = (mixedRow.map (·.2), some (.trailing 2)) := by decide +kernel
+example : parseRow (mixedRow.map (·.1) ++ [.i8]) (mixedKey ++ [0x1a, 0x80])
+    = (mixedRow.map (·.2), some (.outOfRange .i8)) := by decide +kernel
+-- `compact_truncation_key` / `_accepted_prefix_free`: the key cut inside the last terminator, inside
+-- the 64-bit payload (element 4), and at the boundary behind element 0
+example : parseRow (mixedRow.map (·.1)) (mixedKey.take 39)
+    = ((mixedRow.map (·.2)).take 10, some .unterminated) := by decide +kernel
+example : parseRow (mixedRow.map (·.1)) (mixedKey.take 12)
+    = ((mixedRow.map (·.2)).take 4, some .unexpectedEnd) := by decide +kernel
+example : parseRow (mixedRow.map (·.1)) (mixedKey.take 1)
+    = ((mixedRow.map (·.2)).take 1, some .unexpectedEnd) := by decide +kernel
+example : mixedKey.take 39 ++ [0] = mixedKey ∧ ([0] : List Nat) ≠ [] := by decide
+-- `compact_parse_total_no_overrun` on hostile buffers: every kind of outcome
+example : IsBytes [0x23, 0xff, 0x61, 0, 0xff, 0, 0, 0x18, 0x2b] := by decide
+example : parseRow [.u8, .str, .i64] [0x23, 0xff, 0x61, 0, 0xff, 0, 0, 0x18, 0x2b]
+    = ([.nat 255, .bytes [0x61, 0], .int (-1)], some (.trailing 1)) := by decide +kernel
+example : parseRow [.u8, .str, .i64] [0x23, 0xff, 0x61, 0, 0xff, 0, 0, 0x17, 0xff]
+    = ([.nat 255, .bytes [0x61, 0]], some .nonCanonical) := by decide +kernel
+example : parseRow [.u8, .str, .i64] [0x23, 0xff, 0xff, 0, 0, 0x18] = ([.nat 255], some .invalidUtf8) := by
+  decide +kernel
+example : parseRow [.u8, .str, .i64] [0xff, 0xff, 0xff] = ([], some (.invalidIntegerTag 0xff)) := by decide +kernel
+example : parseVal .i64 [0x17, 0xff] = .error .nonCanonical := by decide +kernel
+-- `compact_element_canonical` / `compact_truncation_element` hypotheses
+example : parseVal .i64 [0x10, 0x80, 0, 0, 0, 0, 0, 0, 0, 0x2b] = .ok (.int (-9223372036854775808), [0x2b]) := by
+  decide +kernel
+example : TyOk .str (.bytes [0xc3, 0xbf]) ∧ [0xc3, 0xbf, 0] ++ [0] = encVal' (.bytes [0xc3, 0xbf]) ∧ ([0] : List Nat) ≠ [] := by
+  decide +kernel
+
+end TupleKey2Scan
+-- END TupleKey2Scan
+
 end Blue.Props.C16
 
 #print axioms Blue.Props.C16.discriminants_from_source
@@ -727,3 +949,19 @@ end Blue.Props.C16
 #print axioms Blue.Props.C16.compact_roundtrip
 #print axioms Blue.Props.C16.compact_roundtrip_vals
 #print axioms Blue.Props.C16.compact_injective
+#print axioms Blue.Props.C16.compact_parse_is_calls_then_finish
+#print axioms Blue.Props.C16.compact_parse_total_no_overrun
+#print axioms Blue.Props.C16.compact_calls_total_no_overrun
+#print axioms Blue.Props.C16.compact_element_canonical
+#print axioms Blue.Props.C16.compact_parse_append
+#print axioms Blue.Props.C16.compact_parse_append_rest
+#print axioms Blue.Props.C16.compact_parse_canonical
+#print axioms Blue.Props.C16.compact_reencode_iff
+#print axioms Blue.Props.C16.compact_reencode
+#print axioms Blue.Props.C16.compact_noncanonical_rejected
+#print axioms Blue.Props.C16.compact_isBytes_needed
+#print axioms Blue.Props.C16.compact_truncation_error
+#print axioms Blue.Props.C16.compact_truncation_element
+#print axioms Blue.Props.C16.compact_truncation_key
+#print axioms Blue.Props.C16.compact_truncation_accepted_prefix_free
+#print axioms Blue.Props.C16.compact_truncation_witnesses
